@@ -221,6 +221,24 @@ impl ErrorSink {
     }
 }
 
+/// Verification hook H5 (feature `verif-hooks`): when the environment variable
+/// `SUCCINCTLY_VERIF_ROUTE` names a file, append one line naming the evaluation /
+/// printing route a runner has just decided on. Read-only with respect to the
+/// run itself: it never changes which route is taken or what is printed.
+#[cfg(feature = "verif-hooks")]
+pub fn verif_route(name: &str) {
+    if let Ok(path) = std::env::var("SUCCINCTLY_VERIF_ROUTE") {
+        use std::io::Write as _;
+        if let Ok(mut f) = std::fs::OpenOptions::new()
+            .create(true)
+            .append(true)
+            .open(path)
+        {
+            let _ = writeln!(f, "{name}");
+        }
+    }
+}
+
 /// Print build configuration information (similar to jq --build-configuration)
 pub fn print_build_configuration(tool: &str) {
     println!("succinctly {tool} build configuration:");
